@@ -10,7 +10,7 @@ CONSTANTS MaxLines, Fences, Shapes
 VARIABLE z      \* [shape, fence, tag, ls] ; ls = sequence of line ids
 
 LineIds == {"tab", "nfd", "bsn", "quote", "uop", "alias", "assign", "end", "sep", "ticks", "ticks3", "ticks3nfd",
-            "lead", "trail", "word", "empty", "curly", "curly2", "cmt", "tq"}
+            "lead", "trail", "word", "empty", "curly", "curly2", "curly3", "cmt", "tq"}
 NeedsLongFence == {"ticks3", "ticks3nfd"}          \* a backtick run of 3: only content under a longer fence
 
 (* chunks of a content line (atoms Uxxxx are single characters) and the same text in {Uxxxx} encoding *)
@@ -25,6 +25,7 @@ LineChunks(id) ==
     [] id = "word" -> <<"word">>                  [] id = "empty" -> <<>>
     [] id = "curly" -> <<"u = \"https://x\"; render(Widget{props});">>
     [] id = "curly2" -> <<"render(Widget{props});">>
+    [] id = "curly3" -> <<"see \"T1\" then Widget{props}">>
     [] id = "cmt" -> <<"// not a comment">>       [] OTHER (* tq *) -> <<"\"\"\"x\"\"\"">>
 LineEnc(id) ==
   CASE id = "tab" -> "{U0009}x"                   [] id = "nfd" -> "cafe{U0301}"
@@ -37,6 +38,7 @@ LineEnc(id) ==
     [] id = "word" -> "word"                      [] id = "empty" -> ""
     [] id = "curly" -> "u = \"https://x\"; render(Widget{U007B}props});"
     [] id = "curly2" -> "render(Widget{U007B}props});"
+    [] id = "curly3" -> "see \"T1\" then Widget{U007B}props}"
     [] id = "cmt" -> "// not a comment"           [] OTHER -> "\"\"\"x\"\"\""
 
 Ticks(n) == [i \in 1..n |-> "`"]
